@@ -143,7 +143,7 @@ func (s *Shared) Close(err ...error) {
 		s.detachStream(key)
 		return true
 	})
-	s.grpc.GracefulStop()
+	s.grpc.Stop()
 	s.streams.Clear()
 
 	s.state.Store(sharedStateClosed)
